@@ -322,6 +322,21 @@ func checkDocN(r *result.Results, nRuns int, lens []int, finished bool) (key str
 			}
 		}
 	}
+	// a document assembled from runs that already carry identifiers (its first run copied twice out of this finished
+	// result, the result's own test identifier kept): once normalised, its identifiers are fresh and pairwise distinct too
+	if !finished && len(r.Traceroute.Runs) > 0 && len(r.Traceroute.Runs[0].Hops) < 1000 {
+		d2 := result.Results{TestRunID: r.TestRunID, Traceroute: result.Traceroute{Runs: []result.TracerouteRun{r.Traceroute.Runs[0], r.Traceroute.Runs[0]}}}
+		d2.Normalize()
+		for _, id := range []string{d2.TestRunID, d2.Traceroute.Runs[0].RunID, d2.Traceroute.Runs[1].RunID} {
+			if id == "" {
+				return "id/empty", "document assembled from copied runs"
+			}
+			if ids[id] {
+				return "id/reused", "document assembled from copied runs: " + id
+			}
+			ids[id] = true
+		}
+	}
 	return "", ""
 }
 
